@@ -469,7 +469,11 @@ func (root *Root) replaceArgVars(vars map[string]interface{}, v interface{}, at 
 		}
 	case []interface{}:
 		var mt Type
-		if lt, _ := at.(*List); lt != nil {
+		lt, _ := at.(*List)
+		if nn, _ := at.(*NonNull); nn != nil {
+			lt, _ = nn.Base.(*List)
+		}
+		if lt != nil {
 			mt = lt.Base
 		}
 		cp := make([]interface{}, len(tv))
